@@ -1,7 +1,7 @@
 (** C12 — malformed AML is rejected with an error, never a crash, hang or stray pointer.
     Statements only; every proof is [exact <lemma>] (Aml/LexProofs.v). *)
 From Coq Require Import NArith List.
-From FF Require Import Lib.Word Gen.Consts_device_acpi_aml Aml.Stream Aml.Lex Aml.LexProofs Aml.Tree Aml.TreeSpec Aml.Parser Aml.ParserProofs Aml.ParserProofsTop Aml.ParserTotalFirst Aml.ParserTotalConn Aml.ParserTotalTop Aml.ParserTotalNonNamed Aml.ParserTotalCalls Aml.ParserTotalReloc Aml.ParserTotalMerge.
+From FF Require Import Lib.Word Gen.Consts_device_acpi_aml Aml.Stream Aml.Lex Aml.LexProofs Aml.Tree Aml.TreeSpec Aml.Parser Aml.ParserProofs Aml.ParserProofsTop Aml.ParserTotalFirst Aml.ParserTotalConn Aml.ParserTotalTop Aml.ParserTotalNonNamed Aml.ParserTotalCalls Aml.ParserTotalReloc Aml.ParserTotalMerge Aml.ParserTotalResolve.
 Import ListNotations.
 Local Open Scope N_scope.
 
@@ -290,7 +290,7 @@ Print Assumptions C12_parse_total_partial_nopanic_relocateNamedObjects.
     target scope, the three frees of the name, the block and the directive, and the walk that continues over the moved
     objects).  From ANY state whose pool satisfies [R], valid opcode-table indexes and [pool_ok], with a live root at slot 0
     that has no parent and whose opcode is pOpIntScopeBlock, and in which every Scope directive of the table being loaded
-    has the shape the first pass gives it - a name that is not a name segment, exactly two children: a childless object
+    has the shape the first pass gives it - a name that is not a name segment, an opcode-table row without the Named flag, exactly two children: a childless object
     that carries the target path as a []byte value (a four byte path starts with a name character, \ or ^) and a
     pOpIntScopeBlock - from ANY live object [x]: never a panic.  In particular `nameObj.value.([]byte)` is a []byte, the
     target that Find returns lies outside the directive's subtree (a name lookup that starts at the directive's parent
@@ -306,6 +306,7 @@ Theorem C12_parse_total_partial_nopanic_mergeScopeDirectives :
     (exists o, TreeSpec.get (p_tree s) 0 = Some o /\ o_opcode o = aml_pOpIntScopeBlock) ->
     (forall d dobj, TreeSpec.get (p_tree s) d = Some dobj -> o_opcode dobj = aml_pOpScope -> o_tableHandle dobj = p_handle s ->
        name_lead (o_name dobj) = false /\
+       (forall op fl af, opInfo (o_infoIndex dobj) = Some (op, fl, af) -> hasFlag fl aml_pOpFlagNamed = false) /\
        exists n c no co tbl sl,
          kids g d = [n; c] /\ kids g n = [] /\
          TreeSpec.get (p_tree s) n = Some no /\ o_opcode no <> aml_pOpIntScopeBlock /\ o_opcode no <> aml_pOpScope /\
@@ -321,6 +322,7 @@ Theorem C12_parse_total_partial_nopanic_mergeScopeDirectives :
         (exists o, TreeSpec.get (p_tree s') 0 = Some o /\ o_opcode o = aml_pOpIntScopeBlock) /\
         (forall d dobj, TreeSpec.get (p_tree s') d = Some dobj -> o_opcode dobj = aml_pOpScope -> o_tableHandle dobj = p_handle s' ->
            name_lead (o_name dobj) = false /\
+           (forall op fl af, opInfo (o_infoIndex dobj) = Some (op, fl, af) -> hasFlag fl aml_pOpFlagNamed = false) /\
            exists n c no co tbl sl,
              kids g' d = [n; c] /\ kids g' n = [] /\
              TreeSpec.get (p_tree s') n = Some no /\ o_opcode no <> aml_pOpIntScopeBlock /\ o_opcode no <> aml_pOpScope /\
@@ -333,3 +335,48 @@ Theorem C12_parse_total_partial_nopanic_mergeScopeDirectives :
     end.
 Proof. exact mergeScopeDirectives_never_panics. Qed.
 Print Assumptions C12_parse_total_partial_nopanic_mergeScopeDirectives.
+
+(** ---- the resolve passes chained ---- *)
+
+(** [parse_total_partial] (12), passes covered: resolve_loop = mergeScopeDirectives(0) and relocateNamedObjects(0) alternating
+    until both report nothing left to do (or one fails, or the pass counter runs out), as ParseAML runs them.  From ANY state
+    that satisfies the hypotheses of (11): never a panic, and all of them hold again - a relocation keeps the shape of the
+    Scope directives (the relocated object has the Named flag, a directive has not; neither a directive nor its path object
+    is the old parent or the target ScopeBlock; the rewritten name path belongs to the relocated object).  Fuel exhaustion is
+    not excluded. *)
+Theorem C12_parse_total_partial_nopanic_resolve_loop :
+  forall (fuel walkFuel : nat) (s : pstate) (g : ghost),
+    R (p_tree s) g ->
+    (forall i o, TreeSpec.get (p_tree s) i = Some o -> o_opcode o <> opFreed -> opInfo (o_infoIndex o) <> None) ->
+    pool_ok (p_tables s) (p_tree s) ->
+    glive g 0 -> groot g 0 ->
+    (exists o, TreeSpec.get (p_tree s) 0 = Some o /\ o_opcode o = aml_pOpIntScopeBlock) ->
+    (forall d dobj, TreeSpec.get (p_tree s) d = Some dobj -> o_opcode dobj = aml_pOpScope -> o_tableHandle dobj = p_handle s ->
+       name_lead (o_name dobj) = false /\
+       (forall op fl af, opInfo (o_infoIndex dobj) = Some (op, fl, af) -> hasFlag fl aml_pOpFlagNamed = false) /\
+       exists n c no co tbl sl,
+         kids g d = [n; c] /\ kids g n = [] /\
+         TreeSpec.get (p_tree s) n = Some no /\ o_opcode no <> aml_pOpIntScopeBlock /\ o_opcode no <> aml_pOpScope /\
+         o_value no = Some (VBytes tbl sl) /\
+         (forall s0 bytes, p_tables s0 = p_tables s -> slice_bytes s0 tbl sl = Ok bytes -> good_path bytes) /\
+         TreeSpec.get (p_tree s) c = Some co /\ o_opcode co = aml_pOpIntScopeBlock) ->
+    match resolve_loop fuel walkFuel s with
+    | Ok (_, s') => exists g', R (p_tree s') g' /\
+        (forall i o, TreeSpec.get (p_tree s') i = Some o -> o_opcode o <> opFreed -> opInfo (o_infoIndex o) <> None) /\
+        pool_ok (p_tables s') (p_tree s') /\
+        glive g' 0 /\ groot g' 0 /\
+        (exists o, TreeSpec.get (p_tree s') 0 = Some o /\ o_opcode o = aml_pOpIntScopeBlock) /\
+        (forall d dobj, TreeSpec.get (p_tree s') d = Some dobj -> o_opcode dobj = aml_pOpScope -> o_tableHandle dobj = p_handle s' ->
+           name_lead (o_name dobj) = false /\
+           (forall op fl af, opInfo (o_infoIndex dobj) = Some (op, fl, af) -> hasFlag fl aml_pOpFlagNamed = false) /\
+           exists n c no co tbl sl,
+             kids g' d = [n; c] /\ kids g' n = [] /\
+             TreeSpec.get (p_tree s') n = Some no /\ o_opcode no <> aml_pOpIntScopeBlock /\ o_opcode no <> aml_pOpScope /\
+             o_value no = Some (VBytes tbl sl) /\
+             (forall s0 bytes, p_tables s0 = p_tables s' -> slice_bytes s0 tbl sl = Ok bytes -> good_path bytes) /\
+             TreeSpec.get (p_tree s') c = Some co /\ o_opcode co = aml_pOpIntScopeBlock)
+    | Panic => False
+    | OutOfFuel => True
+    end.
+Proof. exact resolve_loop_never_panics. Qed.
+Print Assumptions C12_parse_total_partial_nopanic_resolve_loop.
